@@ -1,6 +1,6 @@
 (* C04 — property theorems.  Statements only: each is closed by [exact] of a lemma proved elsewhere.
    Model: C04/Model.v (check_loops, attr_set_expression, port add/remove).  Specification: C04/Spec.v. *)
-From QT Require Import C04.Spec C04.CheckThm C04.InvThm C04.SpecThm C04.ParThm C04.GenOk Gen.C04Gen.
+From QT Require Import C04.Spec C04.CheckThm C04.InvThm C04.SpecThm C04.ParThm C04.LoadThm C04.GenOk Gen.C04Gen.
 Open Scope string_scope.
 Open Scope list_scope.
 
@@ -109,6 +109,33 @@ Print Assumptions C04_par_allowed_acyclic.
 Theorem C04_perms_spec : forall (l p : list (op * outcome)), In p (perms l) <-> Permutation l p.
 Proof. exact perms_spec. Qed.
 Print Assumptions C04_perms_spec.
+
+(* ---- persisted data and the load path ----
+   Regenerated from the source on every run: the check_loops call in attr_set_expression is under no condition (and there is
+   exactly one store of a new expression, after it) -- so the expressions that load_from_data assigns at start-up or when a
+   port comes back are checked like any other. *)
+Theorem C04_check_is_unconditional : check_loops_conditions = 0%nat.
+Proof. exact check_is_unconditional. Qed.
+Print Assumptions C04_check_is_unconditional.
+
+(* histories over assignments, additions, removals AND save / removal keeping the persisted data / (re)creation + load /
+   restart: each of the latter is a sequence of the former on the registry, so the registry stays acyclic *)
+Theorem C04_load_path_is_base_ops : forall st h, exists l, fst (happly st h) = fold_left apply l (fst st).
+Proof. exact happly_is_base_ops. Qed.
+Print Assumptions C04_load_path_is_base_ops.
+
+Theorem C04_acyclic_invariant_persist :
+  forall hs st, acyclic_distinct (fst st) -> acyclic_distinct (fst (fold_left happly hs st)).
+Proof. exact acyclic_invariant_persist. Qed.
+Print Assumptions C04_acyclic_invariant_persist.
+
+(* a port that comes back gets its persisted expression unless that closes a cycle; then it stays without expression *)
+Theorem C04_plug_checked : forall g s p e,
+  lookup g p = None -> lookup s p = Some (Some e) ->
+  fst (fst (xstep step (g, s) (XPlug p)))
+  = if closes_cycle_b (add_port g p) p e then add_port g p else update (add_port g p) p (Some e).
+Proof. exact plug_checked. Qed.
+Print Assumptions C04_plug_checked.
 
 (* non-vacuity: a four-port diamond (with a self reference and a dangling id) is accepted, the edge closing it is rejected *)
 Example C04_diamond_accepted : snd (run four diamond_ops) = [Accepted; Accepted; Accepted].
